@@ -29,6 +29,11 @@ import (
 //   post <cl|chunked> x<Content-Encoding> <body> <rec|net>
 //                                                real ServeHTTP, POST {prefix}/digest; the compressed
 //                                                plain text is the Arrow IPC request carrying the payload
+//   route <unary|describe|init|exchange|upload> <cl|chunked> x<Content-Encoding> <body>
+//                                                the same request sent to every route that reads a body
+//                                                (handleUnary, handleDescribe, handleStreamInit,
+//                                                handleStreamExchange, handleUploadURLInit); compared and
+//                                                judged on the statuses the body reader owns: 413 / 415 / other
 //   dec <codec name> <max> <body>                decompressBounded
 //   stack x<Content-Encoding> <max> <len> <kind> <seed> <none|trunc|plain>
 //                                                DecodeContentEncoding on a body built by applying the
@@ -50,7 +55,7 @@ func init() {
 		Exec: c18Exec,
 		NonTrivial: func(lines []string) bool {
 			for _, l := range lines {
-				if (strings.HasPrefix(l, "read ") || strings.HasPrefix(l, "post ") || strings.HasPrefix(l, "dec ")) &&
+				if (strings.HasPrefix(l, "read ") || strings.HasPrefix(l, "post ") || strings.HasPrefix(l, "dec ") || strings.HasPrefix(l, "route ")) &&
 					(strings.Contains(l, " zstd/") || strings.Contains(l, " gzip/")) {
 					return true
 				}
@@ -256,6 +261,11 @@ func c18Gen(g *Gen) {
 			lines = append(lines, fmt.Sprintf("post %s %s %s %s", Pick(r, []string{"cl", "cl", "chunked"}), XS(encHdr), spec, Pick(r, []string{"rec", "rec", "net"})))
 			if r.Chance(50) {
 				lines = append(lines, fmt.Sprintf("post %s %s %s rec", Pick(r, []string{"cl", "chunked"}), XS(encHdr), spec))
+			}
+			// the same request on every route that reads a body
+			mode := Pick(r, []string{"cl", "chunked", "chunked"})
+			for _, rt := range []string{"unary", "describe", "init", "exchange", "upload"} {
+				lines = append(lines, fmt.Sprintf("route %s %s %s %s", rt, mode, XS(encHdr), spec))
 			}
 		} else {
 			p := Pick(r, paths)
@@ -835,6 +845,78 @@ type c18DigestParams struct {
 	Data []byte `vgirpc:"data"`
 }
 
+var c18StreamSchema = arrow.NewSchema([]arrow.Field{{Name: "v", Type: arrow.BinaryTypes.Binary}}, nil)
+
+type c18NoUploads struct{}
+
+func (c18NoUploads) GenerateUploadURL(*arrow.Schema) (vgirpc.UploadURL, error) {
+	return vgirpc.UploadURL{}, fmt.Errorf("no storage in this harness")
+}
+
+var c18Routes = map[string]string{
+	"unary": "/digest", "describe": "/__describe__", "init": "/xstream/init", "exchange": "/xstream/exchange", "upload": "/__upload_url__/init",
+}
+
+// c18JudgeRoute: the status clauses of the property on one route, restricted to the statuses only
+// the body reader (or the fast path) produces. got = 413 | 415 | 0 (anything else).
+func c18JudgeRoute(c *Case, route, line string, cfg c18Cfg, cl int64, b *c18Built, encHdr string, facts c18Facts, got int) {
+	k := c18SpecCaps(cfg, false)
+	enc := c18RefEnc(encHdr)
+	raw := len(b.body)
+	fast := cfg.maxReq > 0 && cl > cfg.maxReq
+	desc := func(what string) string {
+		return fmt.Sprintf("%s: %s [route=%s maxBody=%d maxReq=%d maxDec=%d raw=%d %s answered=%d]", line, what, route, cfg.maxBody, cfg.maxReq, cfg.maxDec, raw, facts, got)
+	}
+	rawOverAdv, rawOverBody := c18Over(raw, k.rawAdv) || fast, c18Over(raw, k.rawBody)
+	switch {
+	case rawOverAdv && !rawOverBody:
+		if got != 413 {
+			c.Oracle("route-"+route+"-advertised-cap-overrun-not-413", desc("body over max_request_bytes"))
+		}
+		return
+	case rawOverAdv || rawOverBody:
+		if got == 415 {
+			c.Oracle("route-"+route+"-over-cap-wrong-status", desc("body over a cap answered 415"))
+		}
+		return
+	}
+	switch enc {
+	case "", "identity":
+		if got != 0 {
+			c.Oracle("route-"+route+"-within-caps-refused", desc("identity body within caps"))
+		}
+		return
+	case "zstd", "gzip":
+	default:
+		if got != 415 {
+			c.Oracle("route-"+route+"-unknown-coding-not-415", desc(fmt.Sprintf("unknown coding %q", enc)))
+		}
+		return
+	}
+	decoded := facts.total()
+	overAdv := c18Over(decoded, k.decAdv) || (enc == "zstd" && c18Over(facts.fcs, k.decAdv))
+	overOwn := c18Over(decoded, k.decOwn) || (enc == "zstd" && c18Over(facts.fcs, k.decOwn))
+	eff := int64(0)
+	for _, v := range []int64{k.decAdv, k.decOwn} {
+		if v > 0 && (eff == 0 || v < eff) {
+			eff = v
+		}
+	}
+	hedge := enc == "zstd" && eff > 0 && int64(facts.maxWindow()) > eff
+	switch {
+	case got == 415:
+		c.Oracle("route-"+route+"-known-coding-415", desc("zstd/gzip body answered 415"))
+	case !facts.clean() || hedge:
+		// refusal class of undecodable streams is 400 or 413 depending on where the decoder stops
+	case overAdv && !overOwn && got != 413:
+		c.Oracle("route-"+route+"-advertised-cap-overrun-not-413", desc("decoded size over max_request_bytes"))
+	case overOwn && !overAdv && got == 413:
+		c.Oracle("route-"+route+"-nonadvertised-cap-413", desc("decoded size over the non-advertised decompressed cap"))
+	case !overAdv && !overOwn && got != 0:
+		c.Oracle("route-"+route+"-within-caps-refused", desc("body within every cap"))
+	}
+}
+
 type c18Env struct {
 	cfg c18Cfg
 	h   *vgirpc.HttpServer
@@ -856,7 +938,11 @@ func c18NewEnv(cfg c18Cfg) *c18Env {
 	vgirpc.Unary(s, "digest", func(_ context.Context, _ *vgirpc.CallContext, p c18DigestParams) (string, error) {
 		return c18Digest(p.Data), nil
 	})
+	vgirpc.Exchange(s, "xstream", c18StreamSchema, c18StreamSchema, func(_ context.Context, _ *vgirpc.CallContext, _ c18DigestParams) (*vgirpc.StreamResult, error) {
+		return nil, fmt.Errorf("stream body is never run by this harness")
+	})
 	h := vgirpc.NewHttpServer(s)
+	h.SetUploadURLProvider(c18NoUploads{})
 	if cfg.prefix != "" {
 		h.SetPrefix(cfg.prefix)
 	}
@@ -1102,6 +1188,43 @@ func c18Exec(c *Case) {
 			}
 			c18Judge(c, l, env.cfg, false, cl, b, encHdr, facts, status, got, status == 200)
 			c.Out(fmt.Sprintf("post %s %d %d %s sha=%s %s", XS(path), cl, len(b.body), f[2], c18Sha(b.plain), facts), obs)
+		case f[0] == "route" && len(f) == 5:
+			spec, ok := c18ParseSpec(f[4])
+			sub, okr := c18Routes[f[1]]
+			if !ok || !okr || (f[2] != "cl" && f[2] != "chunked") {
+				c.Out(l, "err:bad-op")
+				continue
+			}
+			encHdr := UnXS(f[3])
+			b := c18Build(spec, c18IPC(c18Payload(spec.n, spec.kind)))
+			enc := c18RefEnc(encHdr)
+			facts := c18Facts{fcs: -1}
+			if enc == "zstd" || enc == "gzip" {
+				facts = c18FactsFor(enc, b.codec, b.pieces)
+			}
+			path := env.cfg.prefix + sub
+			cl := int64(len(b.body))
+			if f[2] == "chunked" {
+				cl = -1
+			}
+			req := httptest.NewRequest("POST", path, io.NopCloser(bytes.NewReader(b.body)))
+			req.ContentLength = cl
+			req.Header.Set("Content-Type", "application/vnd.apache.arrow.stream")
+			if encHdr != "" {
+				req.Header["Content-Encoding"] = []string{encHdr}
+			}
+			rec := httptest.NewRecorder()
+			env.h.ServeHTTP(rec, req)
+			got, obs := 0, "other"
+			switch rec.Code {
+			case 413:
+				got, obs = 413, "413"
+			case 415:
+				got, obs = 415, "415"
+			}
+			c.Stat(fmt.Sprintf("route-%s-%d", f[1], rec.Code))
+			c18JudgeRoute(c, f[1], l, env.cfg, cl, b, encHdr, facts, got)
+			c.Out(fmt.Sprintf("route %s %d %d %s %s", XS(path), cl, len(b.body), f[3], facts), obs)
 		case f[0] == "dec" && len(f) == 4:
 			spec, ok := c18ParseSpec(f[3])
 			max, e1 := strconv.ParseInt(f[2], 10, 64)
